@@ -4,7 +4,9 @@ import (
 	"context"
 	"fmt"
 	"net/http"
+	"sort"
 	"strconv"
+	"strings"
 
 	"google.golang.org/protobuf/proto"
 	"google.golang.org/protobuf/reflect/protoreflect"
@@ -45,6 +47,8 @@ func c20Unit(j *Job, u *JobUnit) error {
 			// exhaustive enumeration of the mock's random choices (odometer over observed arities)
 			choices := []int{}
 			runs := 0
+			seen := map[string]map[string]bool{} // message.field -> values observed over the whole choice space
+			capped := false
 			for {
 				runs++
 				vrand.Begin(choices)
@@ -85,6 +89,7 @@ func c20Unit(j *Job, u *JobUnit) error {
 					} else {
 						Emit(&Inst{K: "inst", Unit: u.Name, Cell: u.Cell, Svc: js.Name, RPC: m.Name, Kind: "response_200", Body: string(ex.RespBody), Class: fmt.Sprintf("choices=%v", choices)})
 						// (b) fields with examples take one of them
+						observeExamples(u, resp.ProtoReflect(), seen)
 						bad := checkExamples(u, resp.ProtoReflect(), func(sym, detail string) {
 							t.viol(cell, sym, detail+" | response="+protoText(resp), label)
 							t.hit(cellBase, sym, true)
@@ -107,6 +112,23 @@ func c20Unit(j *Job, u *JobUnit) error {
 				if next < 0 || runs > 5000 {
 					if runs > 5000 {
 						t.hit(cellBase, "rng_space_capped", false)
+						capped = true
+					}
+					// (c) over the exhausted choice space every declared example that parses for the field is answered by some choice
+					if !capped {
+						var keys []string
+						for k := range seen {
+							keys = append(keys, k)
+						}
+						sort.Strings(keys)
+						for _, k := range keys {
+							for _, want := range parsableExamples(u, k) {
+								if !seen[k][want] {
+									t.viol(cellBase+"#coverage", "example_never_chosen", fmt.Sprintf("field %s: declared example %q is a value of the field but no sequence of random choices (%d executions, complete) makes the mock answer it; answered %v", k, want, runs, keysOf(seen[k])), nil)
+									t.hit(cellBase, "example_never_chosen", true)
+								}
+							}
+						}
 					}
 					Emit(&Rec{K: "space", Cell: cellBase, N: runs, Detail: fmt.Sprintf("rng choice points %v", arity)})
 					break
@@ -190,4 +212,86 @@ func checkExamples(u *JobUnit, m protoreflect.Message, report func(sym, detail s
 		}
 	}
 	return bad
+}
+
+// observeExamples records, for every singular scalar field with declared examples, the value the mock answered.
+func observeExamples(u *JobUnit, m protoreflect.Message, seen map[string]map[string]bool) {
+	fds := m.Descriptor().Fields()
+	for i := 0; i < fds.Len(); i++ {
+		fd := fds.Get(i)
+		if fd.Kind() == protoreflect.MessageKind && !fd.IsList() && !fd.IsMap() && m.Has(fd) {
+			observeExamples(u, m.Get(fd).Message(), seen)
+			continue
+		}
+		key := string(m.Descriptor().FullName()) + "." + string(fd.Name())
+		if len(u.FieldExamples[key]) == 0 || fd.IsMap() || fd.IsList() || fd.Kind() == protoreflect.MessageKind {
+			continue
+		}
+		if od := fd.ContainingOneof(); od != nil && !od.IsSynthetic() && !m.Has(fd) {
+			continue
+		}
+		if seen[key] == nil {
+			seen[key] = map[string]bool{}
+		}
+		seen[key][scalarString(fd, m.Get(fd))] = true
+	}
+}
+
+// parsableExamples: the declared examples of message.field that are values of the field's kind, in the spelling of
+// scalarString (what observeExamples records).
+func parsableExamples(u *JobUnit, key string) []string {
+	i := strings.LastIndex(key, ".")
+	md, err := NewMessage(key[:i])
+	if err != nil {
+		return nil
+	}
+	fd := md.ProtoReflect().Descriptor().Fields().ByName(protoreflect.Name(key[i+1:]))
+	if fd == nil {
+		return nil
+	}
+	var out []string
+	for _, e := range u.FieldExamples[key] {
+		switch fd.Kind() {
+		case protoreflect.StringKind:
+			out = append(out, e)
+		case protoreflect.BoolKind:
+			if b, err := strconv.ParseBool(e); err == nil {
+				out = append(out, strconv.FormatBool(b))
+			}
+		case protoreflect.FloatKind:
+			if x, err := strconv.ParseFloat(e, 32); err == nil {
+				out = append(out, scalarString(fd, protoreflect.ValueOfFloat32(float32(x))))
+			}
+		case protoreflect.DoubleKind:
+			if x, err := strconv.ParseFloat(e, 64); err == nil {
+				out = append(out, scalarString(fd, protoreflect.ValueOfFloat64(x)))
+			}
+		case protoreflect.Int32Kind, protoreflect.Sint32Kind, protoreflect.Sfixed32Kind:
+			if x, err := strconv.ParseInt(e, 10, 32); err == nil {
+				out = append(out, strconv.FormatInt(x, 10))
+			}
+		case protoreflect.Int64Kind, protoreflect.Sint64Kind, protoreflect.Sfixed64Kind:
+			if x, err := strconv.ParseInt(e, 10, 64); err == nil {
+				out = append(out, strconv.FormatInt(x, 10))
+			}
+		case protoreflect.Uint32Kind, protoreflect.Fixed32Kind:
+			if x, err := strconv.ParseUint(e, 10, 32); err == nil {
+				out = append(out, strconv.FormatUint(x, 10))
+			}
+		case protoreflect.Uint64Kind, protoreflect.Fixed64Kind:
+			if x, err := strconv.ParseUint(e, 10, 64); err == nil {
+				out = append(out, strconv.FormatUint(x, 10))
+			}
+		}
+	}
+	return out
+}
+
+func keysOf(m map[string]bool) []string {
+	var out []string
+	for k := range m {
+		out = append(out, k)
+	}
+	sort.Strings(out)
+	return out
 }
